@@ -648,8 +648,14 @@ func history(c *vk.C, tg target, k int, dir string) {
 
 		time.Sleep(2 * time.Millisecond)
 
-		if !errored[ti].Load() && events[ti].Load() != writes[ti].Load() {
-			c.Violation("events-differ-from-successful-writes", map[string]any{"target": tg.name, "type": types[ti], "events": events[ti].Load(), "successful_writes": writes[ti].Load()})
+		switch {
+		case errored[ti].Load():
+		case events[ti].Load() > writes[ti].Load():
+			c.Violation("events-differ-from-successful-writes", map[string]any{"target": tg.name, "type": types[ti], "events": events[ti].Load(), "successful_writes": writes[ti].Load(),
+				"note": "more events published than successful writes: a failed call published something"})
+		case events[ti].Load() < writes[ti].Load():
+			// fewer events than writes after the (wall-clock) wait: the watcher may simply be slow on a loaded machine
+			c.Inconclusive(fmt.Sprintf("%s: %d events for %d successful writes after 5 s", tg.name, events[ti].Load(), writes[ti].Load()))
 		}
 	}
 
